@@ -27,6 +27,8 @@ const (
 	opPublish
 	opMap
 	opUnsubscribeForeign // a pointer that was never subscribed
+	opSubscribeNil       // Subscribe(Subscription{}) : no OnNext
+	opMute               // set OnNext = nil through the pointer returned by Subscribe
 )
 
 const (
@@ -38,7 +40,7 @@ const (
 )
 
 type scriptItem struct {
-	At  int `json:"at"`  // on my At-th delivery (1-based)
+	At  int `json:"at"` // on my At-th delivery (1-based)
 	Act int `json:"act"`
 	Arg int `json:"arg"`
 }
@@ -59,7 +61,7 @@ func (h history) String() string {
 		if i > 0 {
 			sb.WriteByte(' ')
 		}
-		sb.WriteString([]string{"Sub", "Unsub", "Pub", "Map", "UnsubForeign"}[s.Op])
+		sb.WriteString([]string{"Sub", "Unsub", "Pub", "Map", "UnsubForeign", "SubNil", "Mute"}[s.Op])
 		fmt.Fprintf(&sb, "(%d)", s.Arg)
 	}
 	sb.WriteString(" scripts=")
@@ -89,6 +91,7 @@ type mapEdge struct {
 }
 
 type subState struct {
+	muted      bool // no OnNext: receives nothing, must not disturb the others
 	id         int
 	owner      *pubNode
 	ptr        *fpgo.Subscription[string]
@@ -97,6 +100,7 @@ type subState struct {
 }
 
 type expectRec struct {
+	muted   map[*subState]bool
 	pub     *pubNode
 	val     string
 	r0      []*subState
@@ -119,14 +123,14 @@ type histResult struct {
 }
 
 type histRunner struct {
-	h        history
-	pubs     []*pubNode
-	subs     []*subState
-	active   []*pubRec
-	finished []*pubRec
-	log      []delivery
-	nextVal  int
-	res      *histResult
+	h                history
+	pubs             []*pubNode
+	subs             []*subState
+	active           []*pubRec
+	finished         []*pubRec
+	log              []delivery
+	nextVal          int
+	res              *histResult
 	mutDuringPublish bool
 }
 
@@ -177,7 +181,13 @@ func (r *histRunner) unsubscribe(st *subState) {
 }
 
 func (r *histRunner) expectTree(pn *pubNode, val string, out *[]*expectRec) {
-	*out = append(*out, &expectRec{pub: pn, val: val, r0: append([]*subState(nil), pn.model...), touched: map[*subState]bool{}})
+	muted := map[*subState]bool{}
+	for _, x := range pn.model {
+		if x.muted {
+			muted[x] = true
+		}
+	}
+	*out = append(*out, &expectRec{pub: pn, val: val, r0: append([]*subState(nil), pn.model...), touched: map[*subState]bool{}, muted: muted})
 	for _, e := range pn.children {
 		r.expectTree(e.child, val+e.suffix, out)
 	}
@@ -278,6 +288,13 @@ func (r *histRunner) check() {
 					continue
 				}
 				p, ok := pos[s]
+				if e.muted[s] {
+					if ok {
+						fail("C10/delivered-to-muted", "value %q delivered to s%d which has no OnNext", e.val, s.id)
+						return
+					}
+					continue
+				}
 				if !ok {
 					fail("C10/skipped", "value %q (publisher %d) was not delivered to s%d, registered before the Publish and not (un)subscribed during it; deliveries=%v", e.val, e.pub.id, s.id, ids(subs))
 					return
@@ -352,6 +369,20 @@ func (r *histRunner) runSteps() {
 			if len(r.subs) > 0 {
 				r.unsubscribe(r.subs[s.Arg%len(r.subs)])
 			}
+		case opSubscribeNil:
+			if len(r.subs) < 24 {
+				pn := r.pubs[s.Arg%len(r.pubs)]
+				st := &subState{id: len(r.subs), owner: pn, muted: true}
+				r.subs = append(r.subs, st)
+				st.ptr = pn.p.Subscribe(fpgo.Subscription[string]{})
+				pn.model = append(pn.model[:len(pn.model):len(pn.model)], st)
+			}
+		case opMute:
+			if len(r.subs) > 0 {
+				st := r.subs[s.Arg%len(r.subs)]
+				st.ptr.OnNext = nil
+				st.muted = true
+			}
 		case opUnsubscribeForeign:
 			pn := r.pubs[s.Arg%len(r.pubs)]
 			pn.p.Unsubscribe(&fpgo.Subscription[string]{OnNext: func(string) {}})
@@ -373,7 +404,7 @@ func (r *histRunner) runSteps() {
 func genHistory(t *rapid.T) history {
 	var h history
 	n := rapid.IntRange(1, 30).Draw(t, "steps")
-	ops := []int{opSubscribe, opSubscribe, opSubscribe, opPublish, opPublish, opPublish, opUnsubscribe, opMap, opUnsubscribeForeign}
+	ops := []int{opSubscribe, opSubscribe, opSubscribe, opSubscribe, opPublish, opPublish, opPublish, opPublish, opUnsubscribe, opMap, opUnsubscribeForeign, opSubscribeNil, opMute}
 	for i := 0; i < n; i++ {
 		h.Steps = append(h.Steps, step{Op: rapid.SampledFrom(ops).Draw(t, "op"), Arg: rapid.IntRange(0, 23).Draw(t, "arg")})
 	}
@@ -475,13 +506,13 @@ func runHandlerCase(c handlerCase) histResult {
 // =====================================================================
 
 type concCase struct {
-	Publishers int        `json:"publishers"`
-	PubCount   int        `json:"pubCount"`
-	Static     int        `json:"static"`   // subscriptions registered before and kept
-	Churners   int        `json:"churners"` // goroutines that subscribe/unsubscribe their own subscriptions
-	ChurnOps   int        `json:"churnOps"`
-	Directed   bool       `json:"directed"` // park a publisher after its snapshot until an Unsubscribe completed
-	Plan       vlib.Plan  `json:"plan"`
+	Publishers int       `json:"publishers"`
+	PubCount   int       `json:"pubCount"`
+	Static     int       `json:"static"`   // subscriptions registered before and kept
+	Churners   int       `json:"churners"` // goroutines that subscribe/unsubscribe their own subscriptions
+	ChurnOps   int       `json:"churnOps"`
+	Directed   bool      `json:"directed"` // park a publisher after its snapshot until an Unsubscribe completed
+	Plan       vlib.Plan `json:"plan"`
 }
 
 type concSub struct {
@@ -684,6 +715,8 @@ func report(t vlib.TB, kind string, c any, res histResult, skip func()) {
 }
 
 var regressHistories = []history{
+	// a subscription without OnNext in the middle must not hide the later ones
+	{Steps: []step{{opSubscribe, 0}, {opSubscribeNil, 0}, {opSubscribe, 0}, {opMap, 0}, {opSubscribe, 1}, {opPublish, 0}, {opMute, 0}, {opPublish, 0}}},
 	// DESIGN §4 #14: A unsubscribes itself inside its callback -> B skipped, C twice
 	{Steps: []step{{opSubscribe, 0}, {opSubscribe, 0}, {opSubscribe, 0}, {opPublish, 0}, {opPublish, 0}},
 		Scripts: [][]scriptItem{{{At: 1, Act: actUnsubSelf}}}},
